@@ -7,7 +7,10 @@ d=$(realpath $1); tier=${2:-quick}
 prop=$(python3 -c "import json,sys;print(json.load(open('$d/meta.json'))['property'])")
 if [ -n "$(git -C /repo status --porcelain)" ]; then echo "repo not clean"; exit 2; fi
 git -C /repo apply "$d/patch.diff" || { echo "patch does not apply"; exit 2; }
+cp /verif/evidence/$prop.json /tmp/evidence_$prop.bak 2>/dev/null
 out=$(cd /verif && ./check $prop --tier $tier 2>&1); rc=$?
 git -C /repo checkout -- . 
+# evidence files in /verif must come from runs on the unchanged tree: restore
+[ -f /tmp/evidence_$prop.bak ] && mv /tmp/evidence_$prop.bak /verif/evidence/$prop.json
 echo "$out" | grep -E "VIOLATION|KNOWN-FINDING|INFRA|tier=" | cut -c1-220
 if [ $rc -eq 1 ]; then echo "CAUGHT $d ($prop, $tier)"; elif [ $rc -eq 0 ]; then echo "MISSED $d ($prop, $tier)"; else echo "INFRA-ERROR $d rc=$rc"; echo "$out" | tail -5; fi
